@@ -18,6 +18,8 @@ def tasks(tier):
     return [Task('props.wire:run', name='C01/wire.c01_phi_1D_snm', fname='c01_phi_1D_snm', timeout=300), Task('props.wire:run', name='C01/wire.c01_phi_1D_dispatch', fname='c01_phi_1D_dispatch', timeout=300), Task('props.wire:run', name='C01/wire.c01_phi_1D_genic', fname='c01_phi_1D_genic', timeout=300),
             Task('props.C01:t_kernel_1d', name='C01/kernel.implicit_1Dx', timeout=900),
             Task('props.C01:t_driver_1d', name='C01/wire.one_pop.step', timeout=600),
+            Task('props.C01:t_two_steps_1d', name='C01/wire.one_pop.two-steps', timeout=600),
+            Task('props.C01:t_dispatch_1d', name='C01/wire.one_pop.const-dispatch', timeout=600),
             Task('props.C01:t_const_1d', name='C01/wire.one_pop.const', timeout=600)] + bounded_tasks('C01', tier)
 
 
@@ -39,6 +41,18 @@ def t_driver_1d():
     """one step of the time-dependent one-population driver: influx, then the kernel with the current (nu, gamma, h, beta), dt from _compute_dt"""
     from contracts import py_wiring as W
     return _rename(W.c02_driver_step(1, ()))
+
+
+def t_two_steps_1d():
+    """two consecutive steps of the time-dependent driver: the time step and every parameter are re-evaluated at each step's own time"""
+    from contracts import py_wiring as W
+    return _rename(W.c02_driver_two_steps(1))
+
+
+def t_dispatch_1d():
+    """all-scalar parameters: handed to _one_pop_const_params with every shared parameter (T, initial_t, nu, gamma, h, theta0, beta) in its own slot"""
+    from contracts import py_wiring as W
+    return _rename(W.c02_const_dispatch(1))
 
 
 def t_const_1d():
